@@ -70,6 +70,9 @@ if gocmd is None:
                 g = g[:g.rindex(")")].strip()
             gocmd = g
             break
+if gocmd:
+    gocmd = gocmd.split(" 2>&1")[0].split(" | ")[0].strip()
+cps = [c.replace("$W", wt).replace("${W}", wt) for c in cps]
 rec["demo_files"] = cps
 rec["demo_command"] = gocmd
 def demo():
